@@ -375,7 +375,7 @@ func c04Check(env *core.Env, cc core.Case) core.Verdict {
 			}
 		}
 	}
-	if c.Exact && c.Surround != "behind-long-line" {
+	if c.Exact && c.Surround != "behind-long-line" && len(c.Words) <= 30 {
 		plain, err := ra.Inline(program, files, ra.InlineOpts{Includes: true})
 		if err == nil {
 			if ref, err := ra.Reference(plain, c.Effective.config()); err == nil && ref != "" {
@@ -452,6 +452,8 @@ func c04Gen(r *rand.Rand) *c04Case {
 	n := 1 + r.Intn(5)
 	if core.Chance(r, 1, 3) {
 		n = 1
+	} else if core.Chance(r, 1, 25) {
+		n = 62 + r.Intn(70) // a command list of the length of a real one; every word of it counts, the last ones too
 	}
 	for i := 0; i < n; i++ {
 		if core.Chance(r, 1, 12) {
@@ -459,7 +461,7 @@ func c04Gen(r *rand.Rand) *c04Case {
 		} else if core.Chance(r, 1, 14) {
 			// words at the boundary of the marker rules: nothing but an escaped marker, two markers of one kind
 			// or of both kinds, a one-letter word with a marker
-			c.Words = append(c.Words, core.Pick(r, `\@`, `\~`, `mail@@`, `vi~~`, `a@`, `b~`, `vim~@`, `vi@~`, `@@`, `~~`))
+			c.Words = append(c.Words, core.Pick(r, `\@`, `\~`, `mail@@`, `vi~~`, `a@`, `b~`, `vim~@`, `vi@~`, `@@`, `~~`, ".profile", "-exec rm", ".ssh config@", "-rf x.y", "..", "-", ".a-b c~"))
 		} else {
 			c.Words = append(c.Words, word())
 		}
